@@ -531,14 +531,16 @@ def firstHandlePrefix (pdo cmd mf : Dict) : M (Dict × Dict × Dict) := do
 
 /-- `OptionStore.buildtype_first(coll)`: the `buildtype` entries (any subproject, any machine) moved to the
 front, everything else in its order -/
-def buildtypeFirst (d : Dict) : Dict :=
+def buildtypeFirst {α : Type} (d : List (Key × α)) : List (Key × α) :=
   d.filter (fun p => p.1.name == sBuildtype) ++ d.filter (fun p => !(p.1.name == sBuildtype))
 
 /-- `initialize_from_top_level_project_call(project_default_options, cmd_line_options, machine_file_options)` -/
 def initTop (pdo0 cmd0 mf0 : Dict) : M Unit := do
-  let (pdo1, cmd, mf1) ← firstHandlePrefix pdo0 cmd0 mf0
+  let (pdo1, cmd1, mf1) ← firstHandlePrefix pdo0 cmd0 mf0
   let pdo := buildtypeFirst pdo1
   let mf := buildtypeFirst mf1
+  -- `cmdline.parse_cmd_line_options` only moves the global `buildtype`; `-D:buildtype` is one as well
+  let cmd := buildtypeFirst cmd1
   forEach (fun (kv : Key × Val) => do
     let s ← get
     if !s.isCross && kv.1.isForBuild then M.pure ()
@@ -641,10 +643,15 @@ def configureOne (kv : Key × Option Val) : M Bool := do
         objSetYielding id pt
         M.pure (!o.yielding && pt)
 
-/-- `set_from_configure_command(D_args)`; result `dirty` -/
+/-- the loop of `set_from_configure_command` over the entries in the order given; result `dirty` -/
 def setFromConfigure : List (Key × Option Val) → Bool → M Bool
   | [], dirty => M.pure dirty
   | kv :: r, dirty => M.bind (configureOne kv) (fun d => setFromConfigure r (dirty || d))
+
+/-- `set_from_configure_command(D_args)`: every `buildtype` entry (any project) goes first, so that a `debug` /
+`optimization` given next to it, in whatever textual order, is not hidden by the buildtype expansion; result `dirty` -/
+def setFromConfigureCommand (args : List (Key × Option Val)) : M Bool :=
+  setFromConfigure (buildtypeFirst args) false
 
 /-! ## `update_project_options` (options.py) -/
 
@@ -767,7 +774,7 @@ def applyOp : Op → M Out
   | .setUser k v first => do let b ← setUserOption k v first; M.pure (.bool b)
   | .initTop pdo cmd mf => do initTop pdo cmd mf; M.pure .none
   | .initSub sub spcall pdo cmd mf => do initSub sub spcall pdo cmd mf; M.pure .none
-  | .configure args => do let b ← setFromConfigure args false; M.pure (.bool b)
+  | .configure args => do let b ← setFromConfigure (buildtypeFirst args) false; M.pure (.bool b)   -- = `setFromConfigureCommand args`
   | .updateProject sub objs => do
     let os ← ofExcept (mkObjs objs)
     updateProjectOptions sub os
